@@ -286,6 +286,36 @@ def dense_ldpc(rng, count, cbs=(None,), finish_choices=(False,), probe="each"):
     return execs
 
 
+def fragile_ldpc(rng, drv, bdir, tier):
+    """streaming histories chosen by lib/peel.py: one arrival brings nine or more (T: also 13+, 17+) equations to degree
+    one at once, and a window of that work list is the only route to a source symbol -- the histories on which a work
+    list that loses entries when it grows would show.  Codes with heavy columns (N1 >= 9); the parity-check matrices
+    are asked from the implementation under check first (one `params` call per code)."""
+    import peel
+    q = tier == "quick"
+    execs = []
+    info = []
+    for (min_batch, ncodes, tries, n1max) in ((9, 48, 12000, 14),) if q else ((9, 160, 40000, 14), (13, 96, 40000, 18), (17, 64, 40000, 24)):
+        pts = []
+        for _ in range(ncodes):
+            k = rng.randint(4, 12); n1 = rng.randint(min_batch, n1max); r = rng.randint(max(12, n1), max(24, n1 + 6))
+            pts.append(P(3, k, r, N1=n1, seed=rng.randint(1, 10 ** 6)))
+        Hs = peel.fetch_H(drv, bdir, pts)
+        if Hs is None:      # the implementation did not report one matrix per point: nothing to search in
+            info.append({"min_batch": min_batch, "histories": 0, "note": "no parity-check matrices reported"})
+            continue
+        res = peel.search(pts, Hs, rng, tries, min_batch)
+        narrow = [x for x in res if x[4] <= min_batch - 2]
+        wide = [x for x in res if x[4] > min_batch - 2]
+        rng.shuffle(wide)
+        pick = narrow[: (400 if q else 4000)] + wide[: (80 if q else 800)]
+        for (p, order, ln, a, w) in pick:
+            execs.append(gen.decode_exec(p, order, api="recv", finish=False, probe="end"))
+        info.append({"min_batch": min_batch, "codes": ncodes, "searched": ncodes * tries, "fragile_found": len(res),
+                     "executed": len(pick), "executed_with_window_below_batch_minus_2": len(narrow[: (400 if q else 4000)])})
+    return execs, info
+
+
 def big_ldpc(rng, ks, finish=True):
     """sizes beyond one allocation block of the sparse matrix (1024 entries) and 16 / 32 / 64-bit word boundaries"""
     execs = []
@@ -713,6 +743,10 @@ def run(pid, tier):
             ep = eperf_suite(bdir, pid, tier, verdict, vlib.build_lib(bdir))
         execs = workload(pid, tier, rng)
         ngen = 0
+        fragile = None
+        if pid == "C04":
+            fx, fragile = fragile_ldpc(rng, drv, bdir, tier)
+            execs += fx
         if pid in ("C04", "C01"):
             gen_execs = tlc_behaviours(bdir, tier)
             ngen = len(gen_execs)
@@ -747,6 +781,7 @@ def run(pid, tier):
             "spec_counters": apicheck.stats_summary(api),
             "eperftool_tests_validated": ep,
             "tlc_generated_behaviours_replayed": ngen,
+            "fragile_batch_histories": fragile,
             "layer_b_steps_matched": api.get("itsteps", 0), "layer_b_finish_calls_matched": api.get("mlsteps", 0), "layer_b_bound": (len(api["drift"]) == 0) if strict else None,
             "drift_lines": len(api["drift"]),
             "trace_lines": api["lines"],
